@@ -282,6 +282,20 @@ def props_report(pid):
                 log=(p.stdout[-1500:] + p.stderr[-3000:]) if p.returncode != 0 else "")
 
 
+def coqchk_axioms(pid, timeout=2400):
+    """independent re-check of Props/<pid>.vo and everything it depends on with coqchk; returns
+    (ok, axioms of all loaded libraries, tail of the output)"""
+    try:
+        p = subprocess.run(["coqchk", "-silent", "-o", "-R", COQ, "PV", "PV.Props.%s" % pid], capture_output=True,
+                           text=True, timeout=timeout, cwd=COQ)
+    except subprocess.TimeoutExpired:
+        return False, [], "coqchk timed out after %d s" % timeout
+    out = p.stdout + p.stderr
+    m = re.search(r"\* Axioms:(.*?)\n\s*\n", out, re.S)
+    axioms = [l.strip() for l in (m.group(1).split("\n") if m else []) if l.strip()]
+    return p.returncode == 0, axioms, out[-1200:]
+
+
 FORBIDDEN = re.compile(r"\b(Admitted|admit|Axiom|Axioms|Parameter|Parameters|Conjecture|Abort All|"
                        r"Unset Guard Checking|bypass_check|Admit Obligations|Unset Positivity|Unset Universe Checking)\b")
 
